@@ -16,6 +16,7 @@ import (
 	"sort"
 	"strconv"
 	"strings"
+	"sync"
 
 	"com.tuntun.rangers/node/src/common"
 	"com.tuntun.rangers/node/src/core"
@@ -48,6 +49,8 @@ func main() {
 		n := hx.ArgInt(a, "n", 400)
 		g.search = true
 		runSearch(g, n, stats)
+	case "conc":
+		runConcurrent(hx.ArgInt(a, "workers", 4), stats)
 	case "replay":
 		f, err := os.Open(a["file"])
 		if err != nil {
@@ -64,6 +67,11 @@ func main() {
 		runAmounts(g, thorough)
 		runSessions(g, sessions, stats)
 		runIsolated(g)
+		// process-local history: the corpus again, after everything else has run in this process
+		runCorpus(w)
+	}
+	if len(harnessViolations) > 0 {
+		stats["violations"] = harnessViolations
 	}
 	stats["ops"] = out.N
 	stats["kinds"] = out.Kinds
@@ -148,6 +156,7 @@ func runSessions(g *Gen, sessions int, stats map[string]interface{}) {
 		nb := 6 + g.r.Intn(10)
 		for b := 0; b < nb; b++ {
 			k := g.r.Pick(1, 1, 2, 2, 3, 4)
+			w.refreshFlags(w.height+1, w.height) // generators see the flags of the block they fill
 			for i := 0; i < k; i++ {
 				switch {
 				case g.r.Chance(1, 5):
@@ -201,6 +210,86 @@ func runIsolated(g *Gen) {
 	}
 	w.fork = forkPoints[0]
 	w.Reset(true)
+}
+
+// ---------------------------------------------------------------- concurrency evidence
+
+// corpusObs replays the corpus files that need no shared stub (no `after`, no refund manager list ops) on a private
+// World and returns the answers to the block lines.
+func corpusObs(tag string) []string {
+	dir := os.Getenv("VERIF_CORPUS")
+	files, _ := filepath.Glob(filepath.Join(dir, "*.ops"))
+	sort.Strings(files)
+	out, err := hx.NewOut("conc-"+tag+".ops", "conc-"+tag+".obs")
+	if err != nil {
+		panic(err)
+	}
+	w := NewWorld(out)
+	for _, p := range files {
+		bs, err := os.ReadFile(p)
+		if err != nil || strings.Contains(string(bs), "\nafter ") || strings.Contains(string(bs), "\ncfg ") {
+			continue
+		}
+		for _, line := range strings.Split(string(bs), "\n") {
+			line = strings.TrimSpace(line)
+			if line == "" || line[0] == '#' {
+				continue
+			}
+			if line == "exec" {
+				w.Exec()
+			} else {
+				replayOne(w, line)
+			}
+		}
+	}
+	out.Close()
+	obs, _ := os.ReadFile("conc-" + tag + ".obs")
+	ops, _ := os.ReadFile("conc-" + tag + ".ops")
+	var res []string
+	ol := strings.Split(string(ops), "\n")
+	bl := strings.Split(string(obs), "\n")
+	for i := range ol {
+		if ol[i] == "exec" && i < len(bl) {
+			res = append(res, bl[i])
+		}
+	}
+	return res
+}
+
+// runConcurrent: N goroutines, each executing the same blocks on its own state, must answer what one goroutine
+// answers alone (package-level scratch state, caches, shared big.Ints would show). Evidence, not proof.
+func runConcurrent(workers int, stats map[string]interface{}) {
+	seq := corpusObs("seq")
+	results := make([][]string, workers)
+	var wg sync.WaitGroup
+	for i := 0; i < workers; i++ {
+		wg.Add(1)
+		go func(i int) {
+			defer wg.Done()
+			results[i] = corpusObs(fmt.Sprintf("w%d", i))
+		}(i)
+	}
+	wg.Wait()
+	bad := 0
+	for i := range results {
+		if strings.Join(results[i], "\n") != strings.Join(seq, "\n") {
+			bad++
+			for k := range seq {
+				if k >= len(results[i]) || results[i][k] != seq[k] {
+					got := "<missing>"
+					if k < len(results[i]) {
+						got = results[i][k]
+					}
+					reportViolation("concurrent-execution-differs", fmt.Sprintf("worker %d block %d: sequential %q, concurrent %q", i, k, seq[k], got), nil)
+					break
+				}
+			}
+		}
+	}
+	stats["conc_workers"] = workers
+	stats["conc_blocks"] = len(seq)
+	stats["conc_differing_workers"] = bad
+	fmt.Printf("CONC workers=%d blocks=%d differing=%d\n", workers, len(seq), bad)
 }
 
 // ---------------------------------------------------------------- op-line interpreter (corpus, replay)
@@ -302,6 +391,9 @@ func replayOne(w *World, line string) {
 			w.Refund(l)
 		case "tx":
 			switch t[1] {
+			case "chacc":
+				seq, _ := strconv.ParseUint(t[3], 10, 64)
+				w.QueueChange(parseAddr(t[2]), seq, parseAddr(t[4]))
 			case "node":
 				w.QueueNode(parseAddr(t[2]))
 			case "apply":
@@ -377,6 +469,7 @@ func runSearch(g *Gen, n int, stats map[string]interface{}) {
 	var history []string
 	evals += searchCorpus(w, found)
 	evals += searchUnstake(w, found)
+	evals += searchFamilies(g, found)
 	for evals < n {
 		w.univ = universe()
 		w.fork = forkPoints[0]
@@ -394,6 +487,7 @@ func runSearch(g *Gen, n int, stats map[string]interface{}) {
 		nb := 10 + g.r.Intn(10)
 		for b := 0; b < nb && evals < n; b++ {
 			k := g.r.Pick(1, 2, 2, 3)
+			w.refreshFlags(w.height+1, w.height)
 			for i := 0; i < k; i++ {
 				switch {
 				case g.r.Chance(1, 6):
@@ -409,6 +503,8 @@ func runSearch(g *Gen, n int, stats map[string]interface{}) {
 				if q.isCt {
 					q.mayBurn = ctMayBurn(w, q)
 					q.canUnstake = ctHas(w, q, "ustk")
+					q.unstakeSum = ctSum(w, q, "ustk")
+					q.canRevert = ctHas(w, q, "rv") || ctHas(w, q, "iv")
 				}
 			}
 			res := w.Exec()
@@ -459,7 +555,8 @@ func runSearch(g *Gen, n int, stats map[string]interface{}) {
 // it may lower it only through self-destruct burns (when a SELFDESTRUCT is reachable).
 func classify(qs []*QTx, res BlockResult) string {
 	d := new(big.Int).Sub(res.WAfter, res.WBefore)
-	mayBurn, neg, anyCt, canUnstake, anyMiner := false, false, false, false, false
+	mayBurn, neg, anyCt, canUnstake, anyMiner, canRevert := false, false, false, false, false, false
+	unstakeSum := new(big.Int)
 	nodeFees := new(big.Int)
 	for i, q := range qs {
 		ok := i < len(res.Statuses) && res.Statuses[i] == 's'
@@ -470,6 +567,10 @@ func classify(qs []*QTx, res BlockResult) string {
 			}
 			if q.canUnstake {
 				canUnstake = true
+				unstakeSum.Add(unstakeSum, q.unstakeSum)
+			}
+			if q.canRevert || !ok {
+				canRevert = true
 			}
 		}
 		if q.feat["negvalue"] {
@@ -491,12 +592,13 @@ func classify(qs []*QTx, res BlockResult) string {
 	switch {
 	case d.Sign() > 0:
 		switch {
-		case !res.P002 && mayBurn:
+		case !res.P002 && mayBurn && canRevert:
 			// below Proposal002Block balance writes bypass the journal; only Suicide's recorded balance is written back
 			return "pre002-reverted-selfdestruct-mint"
 		case neg:
 			return "mint-negative-transferValue"
-		case canUnstake:
+		case canUnstake && d.Cmp(new(big.Int).Mul(unstakeSum, big.NewInt(4))) <= 0:
+			// UNSTAKE escrows at most the requested amount beyond the stake it removes (a few visits per frame tree)
 			return "mint-unstake-refund-exceeds-stake"
 		case anyCt:
 			return "mint-contract-tx"
@@ -523,6 +625,81 @@ func classify(qs []*QTx, res BlockResult) string {
 		return "burn-unexplained"
 	}
 	return ""
+}
+
+// searchFamilies: a deterministic small-scope family, run before the random search, at every fork point:
+// a multi-target transfer whose later target is unaffordable, a value call that reverts, a self-destruct inside a
+// reverted frame, a repeated self-destruct with value in between, a failing OperatorNode, a negative transferValue.
+func searchFamilies(g *Gen, found map[string]bool) int {
+	w := g.w
+	n := 0
+	for _, fp := range forkPoints {
+		w.univ = universe()
+		w.fork = fp
+		w.Reset(true)
+		a, b, k1, k5 := eoas[0], eoas[1], contracts[0], contracts[4]
+		w.Set(a, rpg(1000))
+		w.Set(k1, rpg(9))
+		w.Set(k5, rpg(5))
+		gl := "20000000"
+		if w.flags.P026 {
+			gl = "600000000"
+		}
+		steps := []func(){
+			func() {
+				w.QueueOperator(a, []Target{{Key: b.GetHexString(), Amount: "4"}, {Key: eoas[2].GetHexString(), Amount: "5000"}}, false)
+			},
+			func() {
+				w.Code(k1, Script{{Kind: "c", To: b, Val: rpg(1)}, {Kind: "rv"}})
+				t := k1
+				w.QueueContract(CtSpec{Src: a, Target: &t, GasLimit: gl, Value: "2"})
+			},
+			func() {
+				w.Code(k5, Script{{Kind: "sd", To: b}})
+				w.Code(k1, Script{{Kind: "c", To: k5, Val: big.NewInt(0)}, {Kind: "iv"}})
+				t := k1
+				w.QueueContract(CtSpec{Src: a, Target: &t, GasLimit: gl, Value: "0"})
+			},
+			func() {
+				w.Code(k5, Script{{Kind: "sd", To: k5}})
+				w.Code(k1, Script{{Kind: "c", To: k5, Val: big.NewInt(0)}, {Kind: "c", To: k5, Val: rpg(1)}, {Kind: "c", To: k5, Val: big.NewInt(3)}})
+				t := k1
+				w.QueueContract(CtSpec{Src: a, Target: &t, GasLimit: gl, Value: "0"})
+			},
+			func() { w.QueueNode(a) },
+			func() {
+				t := b
+				w.QueueContract(CtSpec{Src: a, Target: &t, GasLimit: gl, Value: "-1"})
+			},
+		}
+		for _, st := range steps {
+			w.refreshFlags(w.height+1, w.height)
+			st()
+			qs := append([]*QTx{}, w.queue...)
+			for _, q := range qs {
+				if q.isCt {
+					q.mayBurn = ctMayBurn(w, q)
+					q.canUnstake = ctHas(w, q, "ustk")
+					q.unstakeSum = ctSum(w, q, "ustk")
+					q.canRevert = ctHas(w, q, "rv") || ctHas(w, q, "iv")
+				}
+			}
+			res := w.Exec()
+			n++
+			if res.Panic != "" {
+				continue
+			}
+			if key := classify(qs, res); key != "" && !found[key] {
+				found[key] = true
+				d := new(big.Int).Sub(res.WAfter, res.WBefore)
+				f := Found{Key: key, Desc: fmt.Sprintf("family at %s: balances+escrow+stake changed by %s wei over one block (%s): %s", fp.label, d.String(), res.Statuses, qs[0].line),
+					Replay: snapshotLines(w)}
+				js, _ := json.Marshal(f)
+				fmt.Println("FOUND " + string(js))
+			}
+		}
+	}
+	return n
 }
 
 // searchCorpus replays every corpus file, checking the sum after every block.
@@ -556,6 +733,8 @@ func searchCorpus(w *World, found map[string]bool) int {
 				if q.isCt {
 					q.mayBurn = ctMayBurn(w, q)
 					q.canUnstake = ctHas(w, q, "ustk")
+					q.unstakeSum = ctSum(w, q, "ustk")
+					q.canRevert = ctHas(w, q, "rv") || ctHas(w, q, "iv")
 				}
 			}
 			res := w.Exec()
@@ -577,6 +756,40 @@ func searchCorpus(w *World, found map[string]bool) int {
 		}
 	}
 	return n
+}
+
+// ctSum adds the values of the reachable actions of one kind (each script counted once).
+func ctSum(w *World, q *QTx, kind string) *big.Int {
+	t := strings.Fields(q.line)
+	sum := new(big.Int)
+	seen := map[string]bool{}
+	var walk func(s Script)
+	walk = func(s Script) {
+		for _, a := range s {
+			if a.Kind == kind && a.Val != nil {
+				sum.Add(sum, a.Val)
+			}
+			switch a.Kind {
+			case "c", "cc", "dc", "sc", "ac":
+				if k := hexAddr(a.To); !seen[k] {
+					seen[k] = true
+					walk(w.codes[a.To])
+				}
+			case "cr":
+				if k := fmt.Sprintf("init%d", a.Init); !seen[k] {
+					seen[k] = true
+					walk(w.inits[a.Init])
+				}
+			}
+		}
+	}
+	if t[6] != "-" {
+		walk(w.codes[parseAddr(t[6])])
+	} else {
+		id, _ := strconv.Atoi(t[11])
+		walk(w.inits[id])
+	}
+	return sum
 }
 
 func ctHas(w *World, q *QTx, kind string) bool {
@@ -603,7 +816,7 @@ func ctMayBurn(w *World, q *QTx) bool {
 func snapshotLines(w *World) []string {
 	var ls []string
 	ls = append(ls, "reset")
-	ls = append(ls, fmt.Sprintf("cfg %d %d %d %d %d %d %d %s", w.fork.height, b2i(w.flags.P002), b2i(w.flags.P015), b2i(w.flags.P017), b2i(w.flags.P018), b2i(w.flags.P026), b2i(w.flags.P027), w.fork.label))
+	ls = append(ls, fmt.Sprintf("cfg %d %d %d %d %d %d %d %d %s", w.fork.height, b2i(w.flags.P002), b2i(w.flags.P015), b2i(w.flags.P017), b2i(w.flags.P018), b2i(w.flags.P026), b2i(w.flags.P027), b2i(w.flags.P014), w.fork.label))
 	u := []string{"univ"}
 	for _, a := range w.univ {
 		u = append(u, hexAddr(a))
